@@ -23,7 +23,7 @@ TARGETS = ['boltons.urlutils.quote_path_part', 'boltons.urlutils.quote_query_par
 BOUNDS = {
     'quick': {'tables': 'all 256 byte values x 4 tables + all 2-hex-digit escapes', 'cells': 'one symbolic ASCII character in each of 6 components, full and minimal quoting',
               'totality': 'URL(text) and find_all_links: 1 free character (2 in thorough) from all 128 ASCII characters + 22 non-ASCII class representatives, alone and inside 11 URL skeletons'},
-    'thorough': {'cells': 'two adjacent symbolic ASCII characters', 'totality': 'length <= 3'},
+    'thorough': {'cells': 'two adjacent ASCII characters: minimal-quoting aspect for all of them, round-trip aspect (both symbolic) for punctuation x punctuation', 'totality': 'two free characters (all skeletons; 5 of the 10 link contexts)'},
 }
 ASSUMPTIONS = ['Unicode NFC normalisation is the identity on ASCII text (unicodedata.normalize is stubbed accordingly inside the cells)',
                'RFC 3986 character sets as written in this harness (pchar, query, fragment, userinfo)']
@@ -215,6 +215,8 @@ def cell_law(c1: str, c2: str) -> bool:
         assume(_in_range(c1, rng))
     if two:
         assume(ord(c2) < 128)
+        if pinval('range2') is not None:
+            assume(_in_range(c2, pinval('range2')))
         sym = c1 + c2
     else:
         sym = c1
@@ -263,7 +265,8 @@ def cell_law(c1: str, c2: str) -> bool:
         # to one model value), so the code point is concretised first by exhaustive forking.
         lo, hi = [(0, 32), (33, 64), (65, 96), (97, 127)][rng if rng is not None else 0]
         code = cz(ord(c1), lo, hi)
-        sym = chr(code) + (chr(cz(ord(c2), 0, 127)) if two else '')
+        lo2, hi2 = [(0, 32), (33, 64), (65, 96), (97, 127)][pinval('range2')] if pinval('range2') is not None else (0, 127)
+        sym = chr(code) + (chr(cz(ord(c2), lo2, hi2)) if two else '')
         for i in range(len(sym)):
             assume(sym[i] != '%')
         vals[comp] = 'a' + sym + 'b'
@@ -337,7 +340,10 @@ def links_total(n: int, k0: int, k1: int) -> bool:
     pre: 0 <= n <= 2
     post: _
     """
-    n = cz(n, 0, pinval('lmax', 1))
+    n = cz(n, pinval('lmin', 0), pinval('lmax', 1))
+    first = pinval('first')
+    if first is not None and n:
+        assume(k0 // 16 == first)
     text = _draw(n, [k0, k1])
     which = pinval('ctx', 0)
     full = ['see http://a.b/' + text + ' and more', 'www.x' + text, 'x ' + text + '://h.com) y', 'http://[' + text + ']/',
@@ -358,7 +364,15 @@ def obligations(tier):
             for rng in range(4):
                 obs.append(Ob('cell_law', timeout=T, pins={'comp': ci, 'two': 0, 'aspect': aspect, 'range': rng}))
                 if not q:
-                    obs.append(Ob('cell_law', timeout=T, pins={'comp': ci, 'two': 1, 'aspect': aspect, 'range': rng}))
+                    # two free characters (measured): the round-trip aspect costs ~1 s per path on two symbolic characters
+                    # (970 s for one range x range cell), so it runs for the punctuation x punctuation cell only, where the
+                    # delimiters live; the per-character quoting aspect gains nothing from a second character; the
+                    # minimal-quoting aspect (concretised code points) runs for every cell
+                    for rng2 in range(4):
+                        if aspect == 2:
+                            obs.append(Ob('cell_law', timeout=T, pins={'comp': ci, 'two': 1, 'aspect': 2, 'range': rng, 'range2': rng2}))
+                        elif aspect == 0 and rng == 1 and rng2 == 1:
+                            obs.append(Ob('cell_law', timeout=2400, pins={'comp': ci, 'two': 1, 'aspect': 0, 'range': 1, 'range2': 1}))
     obs.append(Ob('url_total', timeout=T, pins={'lmin': 0, 'lmax': 1}, need_kinds=('parsed',)))
     for sk in range(len(SKELETONS)):
         obs.append(Ob('url_total', timeout=T, pins={'lmin': 0, 'lmax': 1, 'skeleton': sk}))
@@ -368,5 +382,8 @@ def obligations(tier):
             for sk in range(len(SKELETONS)):
                 obs.append(Ob('url_total', timeout=T, pins={'lmin': 2, 'lmax': 2, 'skeleton': sk, 'first': first}))
     for ctx in range(10):
-        obs.append(Ob('links_total', timeout=T, pins={'lmax': 1 if q else 2, 'ctx': ctx}))
+        obs.append(Ob('links_total', timeout=T, pins={'lmax': 1, 'ctx': ctx}))
+        if not q and ctx in (0, 1, 2, 7, 9):
+            for first in range(10):       # two free characters, partitioned by the first one (alphabet index // 16)
+                obs.append(Ob('links_total', timeout=T, pins={'lmin': 2, 'lmax': 2, 'ctx': ctx, 'first': first}))
     return obs
